@@ -200,6 +200,9 @@ class TestCasePostProcessor(cv.ChromosomeVisitor):
     ) -> None:
         for test_case_chromosome in chromosome.test_case_chromosomes:
             test_case_chromosome.accept(self)
+        # The test cases were modified in place: values cached for the suite
+        # (e.g., its coverage) must not be served any more.
+        chromosome.changed = True
 
     def visit_test_case_chromosome(  # noqa: D102
         self, chromosome: tcc.TestCaseChromosome
